@@ -107,7 +107,7 @@ func goBin() string {
 // instrumentMapRanges type-checks package pkgPath (rooted at modDir, living in
 // dir) and rewrites map ranges in its non-test Go files. relRoot is the copy
 // root, used to render site names.
-func instrumentMapRanges(relRoot, modDir, pkgPattern string) {
+func instrumentMapRanges(relRoot, modDir, pkgPattern string, isMain bool) {
 	listed := goList(modDir, pkgPattern)
 	var target *listedPkg
 	absDir, _ := filepath.Abs(filepath.Join(modDir, pkgPattern))
@@ -140,10 +140,18 @@ func instrumentMapRanges(relRoot, modDir, pkgPattern string) {
 	}
 	conf := types.Config{
 		Importer: importer.ForCompiler(fset, "gc", lookup),
-		Error:    func(err error) {}, // collect what we can; unresolved sites are fatal below
+		Error: func(err error) {
+			if os.Getenv("VERIF_INSTRUMENT_DEBUG") != "" {
+				fmt.Fprintln(os.Stderr, "instrument: type check:", err)
+			}
+		},
 	}
-	info := &types.Info{Types: map[ast.Expr]types.TypeAndValue{}}
+	info := &types.Info{Types: map[ast.Expr]types.TypeAndValue{}, Defs: map[*ast.Ident]types.Object{}}
 	_, _ = conf.Check(target.ImportPath, fset, files, info)
+	mainTouched := map[int]bool{}
+	if isMain {
+		mainTouched = addProcessStart(files, info)
+	}
 
 	for i, af := range files {
 		changed := false
@@ -174,7 +182,11 @@ func instrumentMapRanges(relRoot, modDir, pkgPattern string) {
 			changed = true
 			return true
 		})
-		if addGlobalsReset(af, info, i) {
+		if !isMain && addGlobalsReset(af, info, i) {
+			addImport(af, "verifsimos", simosImport)
+			changed = true
+		}
+		if mainTouched[i] {
 			addImport(af, "verifsimos", simosImport)
 			changed = true
 		}
@@ -373,10 +385,12 @@ func main() {
 		die("%v", err)
 	}
 	// Order matters: type-check while the tree is still the original program.
-	instrumentMapRanges(r, filepath.Join(r, "v2"), ".")
-	instrumentMapRanges(r, r, "./lib")
-	instrumentMapRanges(r, filepath.Join(r, "v2"), "./jd")
-	instrumentMapRanges(r, r, ".")
+	// the main packages first: their type check needs the export data of the
+	// libraries as they are in the original program
+	instrumentMapRanges(r, filepath.Join(r, "v2"), "./jd", true)
+	instrumentMapRanges(r, r, ".", true)
+	instrumentMapRanges(r, filepath.Join(r, "v2"), ".", false)
+	instrumentMapRanges(r, r, "./lib", false)
 	convertMain(filepath.Join(r, "v2", "jd"), "jdv2", "flagv2")
 	convertMain(r, "jdtop", "flagtop")
 	sort.Slice(rep.MapRangeSites, func(i, j int) bool { return rep.MapRangeSites[i].Site < rep.MapRangeSites[j].Site })
@@ -386,4 +400,123 @@ func main() {
 			die("%v", err)
 		}
 	}
+}
+
+// addProcessStart makes a main package start afresh for every simulated
+// process, the way a real process does: every package-level variable is
+// re-initialised in the order the Go specification prescribes (types.Info's
+// InitOrder), flag definitions included (the flag shim hands out a new flag set
+// per process), variables without an initialiser are zeroed, and the package's
+// init functions run again. It returns the indices of the files it changed.
+func addProcessStart(files []*ast.File, info *types.Info) map[int]bool {
+	touched := map[int]bool{}
+	// file extents, taken before any declaration is appended (appended
+	// declarations have no positions and would move File.End)
+	type span struct{ lo, hi token.Pos }
+	spans := make([]span, len(files))
+	for i, f := range files {
+		spans[i] = span{f.Pos(), f.End()}
+	}
+	fileOf := func(pos token.Pos) int {
+		for i, sp := range spans {
+			if sp.lo <= pos && pos <= sp.hi {
+				return i
+			}
+		}
+		return -1
+	}
+	var calls []ast.Stmt
+	n := 0
+	addFunc := func(fi int, body []ast.Stmt) {
+		name := fmt.Sprintf("verifStart%d", n)
+		n++
+		files[fi].Decls = append(files[fi].Decls, &ast.FuncDecl{Name: ast.NewIdent(name), Type: &ast.FuncType{Params: &ast.FieldList{}}, Body: &ast.BlockStmt{List: body}})
+		calls = append(calls, &ast.ExprStmt{X: &ast.CallExpr{Fun: ast.NewIdent(name)}})
+		touched[fi] = true
+	}
+	initialised := map[string]bool{}
+	// 1. variables without an initialiser: zero value
+	for fi, af := range files {
+		for _, d := range af.Decls {
+			gd, ok := d.(*ast.GenDecl)
+			if !ok || gd.Tok != token.VAR {
+				continue
+			}
+			for _, sp := range gd.Specs {
+				vs := sp.(*ast.ValueSpec)
+				if len(vs.Values) != 0 || vs.Type == nil {
+					continue
+				}
+				for _, name := range vs.Names {
+					if name.Name == "_" {
+						continue
+					}
+					addFunc(fi, []ast.Stmt{
+						&ast.DeclStmt{Decl: &ast.GenDecl{Tok: token.VAR, Specs: []ast.Spec{&ast.ValueSpec{Names: []*ast.Ident{ast.NewIdent("z")}, Type: vs.Type}}}},
+						&ast.AssignStmt{Lhs: []ast.Expr{ast.NewIdent(name.Name)}, Tok: token.ASSIGN, Rhs: []ast.Expr{ast.NewIdent("z")}},
+					})
+					initialised[name.Name] = true
+				}
+			}
+		}
+	}
+	// 2. initialisers, in initialisation order
+	if os.Getenv("VERIF_INSTRUMENT_DEBUG") != "" {
+		fmt.Fprintln(os.Stderr, "instrument: InitOrder has", len(info.InitOrder), "entries")
+	}
+	for _, in := range info.InitOrder {
+		fi := fileOf(in.Rhs.Pos())
+		if fi < 0 {
+			continue
+		}
+		var lhs []ast.Expr
+		for _, v := range in.Lhs {
+			lhs = append(lhs, ast.NewIdent(v.Name()))
+		}
+		if len(lhs) == 0 {
+			lhs = []ast.Expr{ast.NewIdent("_")}
+		}
+		addFunc(fi, []ast.Stmt{&ast.AssignStmt{Lhs: lhs, Tok: token.ASSIGN, Rhs: []ast.Expr{in.Rhs}}})
+	}
+	// 3. init functions run again (renamed so that they can be called)
+	k := 0
+	var firstFile = -1
+	for fi, af := range files {
+		if firstFile < 0 {
+			firstFile = fi
+		}
+		for _, d := range af.Decls {
+			fd, ok := d.(*ast.FuncDecl)
+			if !ok || fd.Recv != nil || fd.Name.Name != "init" {
+				continue
+			}
+			fd.Name.Name = fmt.Sprintf("verifOrigInit%d", k)
+			calls = append(calls, &ast.ExprStmt{X: &ast.CallExpr{Fun: ast.NewIdent(fd.Name.Name)}})
+			k++
+			touched[fi] = true
+		}
+	}
+	if len(calls) == 0 || firstFile < 0 {
+		return touched
+	}
+	// registration: the original init functions must still run once at program
+	// start (they were renamed), then everything is registered for re-running
+	var initBody []ast.Stmt
+	for _, c := range calls {
+		if ce, ok := c.(*ast.ExprStmt).X.(*ast.CallExpr); ok {
+			if id, ok := ce.Fun.(*ast.Ident); ok && len(id.Name) > 13 && id.Name[:13] == "verifOrigInit" {
+				initBody = append(initBody, c)
+			}
+		}
+	}
+	files[firstFile].Decls = append(files[firstFile].Decls,
+		&ast.FuncDecl{Name: ast.NewIdent("verifProcessStart"), Type: &ast.FuncType{Params: &ast.FieldList{}}, Body: &ast.BlockStmt{List: calls}},
+	)
+	initBody = append(initBody, &ast.ExprStmt{X: &ast.CallExpr{Fun: &ast.SelectorExpr{X: ast.NewIdent("verifsimos"), Sel: ast.NewIdent("OnProcessStart")}, Args: []ast.Expr{ast.NewIdent("verifProcessStart")}}})
+	files[firstFile].Decls = append(files[firstFile].Decls,
+		&ast.FuncDecl{Name: ast.NewIdent("init"), Type: &ast.FuncType{Params: &ast.FieldList{}}, Body: &ast.BlockStmt{List: initBody}},
+	)
+	touched[firstFile] = true
+	rep.GlobalsReset = append(rep.GlobalsReset, fmt.Sprintf("main package: %d variables re-initialised and %d init functions re-run at every process start", n, k))
+	return touched
 }
